@@ -192,6 +192,7 @@ func verify(repoDir, verifDir, prop, tier, fnFilter, dump string, overlay map[st
 	if err != nil {
 		return nil, err
 	}
+	exemptCheck = w.exemptReason
 	res := &RunResult{Prop: prop, Tier: tier, Packages: rels, World: w}
 	timeout := 10000
 	if tier == "thorough" {
